@@ -182,6 +182,7 @@ type stats struct {
 	words    int64
 	nontriv  int64
 	opensOK  int64
+	opensExt int64
 	dirOpens int64
 	reads    int64
 	resets   int64
@@ -228,6 +229,7 @@ func (e *explorer) merge(kind int, s *stats) {
 	t.words += s.words
 	t.nontriv += s.nontriv
 	t.opensOK += s.opensOK
+	t.opensExt += s.opensExt
 	t.dirOpens += s.dirOpens
 	t.reads += s.reads
 	t.resets += s.resets
@@ -436,6 +438,12 @@ func nontrivial(errs []uint32) bool {
 	return true
 }
 
+// extendedFdflags: for the additional mount kinds (dualfs, rwfile, subfs, richfs) the quick tier runs the
+// complete single-step flag product but extends a successful open to two-step words only for these
+// fdflags values (none, APPEND, NONBLOCK, DSYNC|RSYNC|SYNC, all); thorough extends all 32.
+var extendedFdflags = map[uint16]bool{0: true, wasip1.FD_APPEND: true, wasip1.FD_NONBLOCK: true,
+	wasip1.FD_DSYNC | wasip1.FD_RSYNC | wasip1.FD_SYNC: true, 31: true}
+
 // openShard: all oflags x fdflags for one (mount, path, lookup, rights); each successful open is
 // followed by every tail.
 func (e *explorer) openShard(kind int, path string, lookup uint16, rights uint64) {
@@ -460,6 +468,10 @@ func (e *explorer) openShard(kind int, path string, lookup uint16, rights uint64
 				continue
 			}
 			st.opensOK++
+			if !e.thorough && kind > kMapFS && !extendedFdflags[ff] {
+				continue // additional mount kinds, quick tier: sequences for a subset of fdflags (all oflags x rights x paths)
+			}
+			st.opensExt++
 			isDir := errs[1] == 0 && w.bufFiletype() == wasip1.FILETYPE_DIRECTORY
 			if isDir {
 				st.dirOpens++
@@ -689,7 +701,7 @@ func main() {
 		reads += t.reads
 		opensOK += t.opensOK
 		perKind[kindNames[k]] = map[string]int64{"words": t.words, "steps_checked": t.steps, "nontrivial_words": t.nontriv,
-			"successful_path_open_classes": t.opensOK, "of_which_directories": t.dirOpens, "read_through_checks": t.reads, "tree_recreations": t.resets, "full_snapshots": t.fullSnaps}
+			"successful_path_open_classes": t.opensOK, "extended_to_sequences": t.opensExt, "of_which_directories": t.dirOpens, "read_through_checks": t.reads, "tree_recreations": t.resets, "full_snapshots": t.fullSnaps}
 	}
 	provWords := map[string]int64{}
 	for i := 1; i < nProvs; i++ {
